@@ -1130,5 +1130,73 @@ def _check_format(fmt, where, node, bad):
 
 
 
+
+def rule_decoders_do_not_reject_values(ctx):
+    """C02.j  Every value a field can hold is decodable.  The property quantifies over every frame value; a parse
+    method that raises when a decoded field has a particular value (a LEASE that grants 0 requests or lasts 0 ms, a
+    request-n of 0, ...) turns a frame the peer is entitled to send into an invalid-frame marker that the receive loop
+    ignores - for LEASE that means the previous lease stays in force after it was withdrawn.  In the parse methods of
+    the frame classes (and parse_header_*), an explicit `raise` may depend on lengths of the buffer only: the tests
+    that guard it mention nothing but len(...), offsets and constants - not `self.<field>` or a value taken from the
+    buffer."""
+    rep = ctx.report
+    repo = ctx.repo
+    m = repo.module('rsocket.frame')
+    if m is None:
+        raise AnalysisError('C02.j: rsocket.frame vanished')
+    fns = []
+    for k in m.classes.values():
+        for k2 in (k if isinstance(k, list) else [k]):
+            for name, f in k2.methods.items():
+                if name.startswith('parse'):
+                    fns.append(f)
+    for name, lst in m.functions.items():
+        if name.startswith('parse_header'):
+            fns.append(lst[-1])
+    rep.require('C02.j', 'parse methods of frame classes', len(fns), 16)
+    bad = []
+    for f in fns:
+        parents = {}
+        for x in ast.walk(f.node):
+            for c in ast.iter_child_nodes(x):
+                parents[c] = x
+        for r in walk_local(f.node):
+            if not isinstance(r, ast.Raise) or r.exc is None:
+                continue
+            tests = []
+            x = r
+            while x in parents:
+                p = parents[x]
+                if isinstance(p, (ast.If, ast.While)) and x is not p.test:
+                    tests.append(p.test)
+                if isinstance(p, ast.ExceptHandler):
+                    tests = None  # re-wrapping an exception that is already under way
+                    break
+                x = p
+            if tests is None:
+                continue
+
+            def structural(t):
+                """only len(...), names containing 'offset' / 'length' / 'size', constants and operators"""
+                for n in ast.walk(t):
+                    if isinstance(n, ast.Attribute):
+                        return False
+                    if isinstance(n, ast.Name) and n.id not in ('len', 'buffer') and \
+                            not any(w in n.id.lower() for w in ('offset', 'length', 'size', 'header')):
+                        return False
+                return True
+
+            if not tests or not all(structural(t) for t in tests):
+                bad.append((f, r, tests))
+    for f, r, tests in bad:
+        rep.bad('C02.j', '%s / raise at line %d' % (f.short, r.lineno), f,
+                'the decoder rejects a frame because of the value of a field (%s): such a frame becomes an invalid-frame '
+                'marker and is ignored' % (ast.unparse(tests[0])[:80] if tests else 'unconditionally'))
+    if not bad:
+        rep.ok('C02.j', 'frame decoders / no field value is rejected', m, '%d parse methods, explicit raises depend on '
+               'buffer lengths only' % len(fns))
+
+
+
 RULES = [('C02.a', rule_a), ('C02.b', rule_b), ('C02.b', rule_b2), ('C02.c', rule_c), ('C02.d', rule_d), ('C02.e', rule_e),
-         ('C02.f', rule_f), ('C02.g', rule_g), ('C02.e', rule_tcp_writer), ('C02.h', rule_decoder_entry), ('C18.l', rule_signedness), ('C02.i', rule_byte_order)]
+         ('C02.f', rule_f), ('C02.g', rule_g), ('C02.e', rule_tcp_writer), ('C02.h', rule_decoder_entry), ('C18.l', rule_signedness), ('C02.i', rule_byte_order), ('C02.j', rule_decoders_do_not_reject_values)]
